@@ -31,6 +31,7 @@ import (
 	"github.com/ethereum/go-ethereum/common"
 	"github.com/ethereum/go-ethereum/crypto"
 	"github.com/palomachain/paloma/v2/verifharness/emit"
+	keeperutil "github.com/palomachain/paloma/v2/util/keeper"
 	conskeeper "github.com/palomachain/paloma/v2/x/consensus/keeper"
 	"github.com/palomachain/paloma/v2/x/consensus/keeper/consensus"
 	"github.com/palomachain/paloma/v2/x/consensus/types"
@@ -776,7 +777,9 @@ func newIDEnv(t *testing.T, nq int, batched ...int) *idEnv {
 	stateStore := store.NewCommitMultiStore(db, nopLogger(), metrics.NewNoOpMetrics())
 	storeKey := storetypes.NewKVStoreKey(types.StoreKey)
 	memKey := storetypes.NewMemoryStoreKey(types.MemStoreKey)
+	ownKey := storetypes.NewKVStoreKey("c05-module-with-its-own-store")
 	stateStore.MountStoreWithDB(storeKey, storetypes.StoreTypeIAVL, db)
+	stateStore.MountStoreWithDB(ownKey, storetypes.StoreTypeIAVL, db)
 	stateStore.MountStoreWithDB(memKey, storetypes.StoreTypeMemory, nil)
 	if err := stateStore.LoadLatestVersion(); err != nil {
 		t.Fatal(err)
@@ -801,6 +804,11 @@ func newIDEnv(t *testing.T, nq int, batched ...int) *idEnv {
 			consensus.WithVerifySignature(func([]byte, []byte, []byte) bool { return true }),
 			consensus.WithBatch(isBatched),
 		))
+		if i >= 2 && i == nq-1 && len(batched) == 0 {
+			// a queue whose module brings its OWN store (QueueOptions.Sg set, Ider left to the keeper): its items live
+			// elsewhere, its ids still come from the one consensus-wide counter
+			qo[i].Sg = keeperutil.StoreGetterFn(func(ctx context.Context) storetypes.KVStore { return sdk.UnwrapSDKContext(ctx).KVStore(ownKey) })
+		}
 	}
 	kreg.Add(queues{qo})
 	k := conskeeper.NewKeeper(cdc, runtime.NewKVStoreService(storeKey), ps, stubValset{}, kreg, stubFees{})
@@ -1138,6 +1146,9 @@ func TestCorr(t *testing.T) {
 		"delivered calls (relayable items): transaction input packed from the compass ABI JSON of the repository, accepted by the real VerifyAgainstTX, reproduced by the model and read back by the model decoder; " +
 		"histories over plain and batched queues (BatchQueue.Put / ProcessBatches, staging counter seeded too, sometimes > 100 staged messages); " +
 		"late replaces (after remove, through the queue of another chain) must be refused. " +
+		"fourth round: in id histories over >= 3 queues the last queue keeps its items in a store of its own (QueueOptions.Sg); " +
+		"skyway batch life cycles on the real skyway/evm keepers (build with estimate 0 / estimate election / compass handover through ActivateChainReferenceID and its event / more builds), " +
+		"after every op BatchRequestByNonce, LastPendingBatchRequestByAddr, OutgoingTxBatches, LastPendingBatchForGasEstimation and the store must hand out, for every batch, the checkpoint of that batch under the chain's current compass id. " +
 		"third round: id histories also remove a chain's queue (Keeper.RemoveConsensusQueue) and go on enqueueing on the others; " +
 		"sign histories (put / in-place replace with another payload, fees, relayer or action / relayer reassignment / estimate election / remove) on one keeper, " +
 		"after every op QueuedMessagesForSigning, MessagesInQueue and MessageByID must serve for every message the signing bytes of the message as stored now. non-trivial = sign case with a non-empty dynamic part; id history with >=2 allocations, " +
@@ -1193,6 +1204,12 @@ func TestCorr(t *testing.T) {
 				t.Fatalf("%s: %v", f, err)
 			}
 			runIDs(t, run, r, ops, rec.Start, rec.NQ)
+		case "batchlife":
+			var ops []blOp
+			if err := json.Unmarshal(rec.Ops, &ops); err != nil {
+				t.Fatalf("%s: %v", f, err)
+			}
+			runBatchLife(t, run, r, ops)
 		case "signhist":
 			var ops []sOp
 			if err := json.Unmarshal(rec.Ops, &ops); err != nil {
@@ -1254,6 +1271,10 @@ func TestCorr(t *testing.T) {
 	// what the chain asks validators to sign, along histories with in-place changes
 	for i := 0; i < run.N/12; i++ {
 		runSignHistory(t, run, r, nil, 0)
+	}
+	// the life cycle of a skyway batch's bytes to sign on the real skyway keeper
+	for i := 0; i < run.N/25; i++ {
+		runBatchLife(t, run, r, nil)
 	}
 	// histories over batched queues
 	for i := 0; i < nIDsB; i++ {
